@@ -159,9 +159,11 @@ def expected_from_lean(ck, cases):
             c.expect = ("illtyped", [])
         elif f[0] == "ok":
             ents = []
+            c.expect_nodes = []
             for e in (f[1].split(" ") if len(f) > 1 and f[1] else []):
                 node, loc, label, actual, exp = e.split("|")
                 ents.append((loc, unhexs(label), unhexs(actual), None if exp == "none" else unhexs(exp)))
+                c.expect_nodes.append((int(node), loc, unhexs(label), unhexs(actual)))
             c.expect = ("ok", sorted(ents, key=lambda x: (x[0], x[1])))
         else:
             c.expect = ("lean-" + f[0], [])
@@ -202,10 +204,12 @@ def run_corpus(ck, stream, n, per_bin=20, allow_regex=True, forms=None, default_
         proj = e2e.Project("t3-%s" % stream, default_features=default_features)
         try:
             bins = {}
+            srcs = {}
             for i in range(0, len(live), per_bin):
                 name = "c%03d" % (i // per_bin)
                 chunk = live[i:i + per_bin]
-                proj.add_bin(name, program(chunk))
+                srcs[name] = program(chunk)
+                proj.add_bin(name, srcs[name])
                 bins[name] = chunk
             res = proj.build()
             rejected = []
@@ -242,7 +246,11 @@ def run_corpus(ck, stream, n, per_bin=20, allow_regex=True, forms=None, default_
                                 if a != [0, 0, 0, 0]:
                                     a[0] -= c.first_line - 1
                                     a[2] -= c.first_line - 1
-                                ents.append((".".join(map(str, a)), unhexs(label), unhexs(actual), None if exp == "none" else unhexs(exp)))
+                                marked = None
+                                if span != "none":
+                                    b0, b1 = (int(x) for x in span.split("-"))
+                                    marked = srcs[name].encode("utf-8")[b0:b1].decode("utf-8", "replace")
+                                ents.append((".".join(map(str, a)), unhexs(label), unhexs(actual), None if exp == "none" else unhexs(exp), span, marked))
                             c.got = ("fail", sorted(ents, key=lambda x: (x[0], x[1])), unhexs(p[mi + 1]))
                     for c in chunk:
                         if c.id not in seen:
